@@ -22,3 +22,22 @@ Theorem C04_chain_increasing :
      end) dt (chain E p st dt n).
 Proof. exact chain_increasing. Qed.
 Print Assumptions C04_chain_increasing.
+
+(* ---- the tie to the source by translation: coq/gen/GenProd.v is regenerated from src/eascheduler/producers/*.py and
+   helpers/time_replace.py on every run (tools/gen_prod.py); these theorems are re-checked against it.  [pknot E n] is
+   the generated code closed by dispatch on the class of the object; [lift] reads a model answer as an outcome of the
+   generated code (value + producer state / exception / out of fuel). *)
+From EAS Require GenRtProd GenProdEq.
+Theorem C04_generated_source_recognised : EASGen.GenProd.gen_prod_status_v = EASGen.GenProd.GenProdOk.
+Proof. exact GenProdEq.gen_prod_recognised. Qed.
+Print Assumptions C04_generated_source_recognised.
+(* for every well-formed trigger expression, state and instant the generated producers compute the model *)
+Theorem C04_generated_producers_are_model : forall E n p, wf_producer p -> (GenProdEq.rank p <= n)%nat ->
+  forall dt st, GenRtProd.r_get_next (GenProdEq.pknot E n) p dt st = GenRtProd.lift (get_next E p st dt).
+Proof. exact GenProdEq.gen_get_next_is_model. Qed.
+Print Assumptions C04_generated_producers_are_model.
+(* C04 read off the generated code: whatever it answers is strictly after the reference instant *)
+Theorem C04_generated_next_strictly_future : forall E n p dt st st' v, wf_producer p -> (GenProdEq.rank p <= n)%nat ->
+  GenRtProd.r_get_next (GenProdEq.pknot E n) p dt st = Some (st', GenRtProd.PRet v) -> dt < v.
+Proof. exact GenProdEq.gen_next_strictly_future. Qed.
+Print Assumptions C04_generated_next_strictly_future.
